@@ -6,7 +6,8 @@ from vlib import core
 from vlib.core import Stage
 
 ID = "C18"
-_SCRATCH = os.path.join(core.RUNS_ROOT, ID, "files")
+# grid files written/damaged by the cases; one directory per runner process so that concurrent runs do not collide
+_SCRATCH = os.path.join(core.RUNS_ROOT, ID, "files-%d" % os.getpid())
 STAGES = [
     # the deciding variant: ASan + UBSan + float-cast-overflow, assertions on
     Stage("gridgen-asan", "p18_gridgen", "asan", {"quick": 900, "thorough": 40000},
@@ -46,7 +47,7 @@ THRESHOLDS = {
     "roundtrip_excess_error": 64.0,           # (|loaded - written| - 0.5*10^-precision)_+ / (eps max(|x|, 10^-precision))
     "damaged_file_grid_is_valid": 0.5,
 }
-MIN_NONTRIVIAL = {"quick": 100, "thorough": 300}
+MIN_NONTRIVIAL = {"quick": 150, "thorough": 400}
 RULE = ("one case = one tuple from VERIF_SEED: Rmax in {1, 1.3, 2} or log-uniform 0.05..50, R0 = 1e-5 / (1e-8..0.95)*Rmax "
         "(3% invalid: R0 >= Rmax, R0 <= 0, R0 ~ Rmax), nr_exp 0..8, ntheta_exp -1..9, anisotropic_factor -1..7, divideBy2 0..3 "
         "(30% of the cases from a small range so that GMGPolar::setup() is run), maxLevels -1..8, refinement radius in 8 "
